@@ -189,3 +189,32 @@ def run_driver(lines, timeout=600):
     if out and out[-1] == '':
         out.pop()
     return out
+
+
+# ------------------------------------------------------------------------------------------------
+# running the real trainer in-process
+
+def train(training_file, ruledir, encoding='utf-8', ngram=4, coverage=0.6, alphabet_size=100,
+          prefixcount=False, save_sensitive=False, multiword=False, max_len=21, capture=True):
+    """run_trainer() of the snapshot on a training file; returns (ok, captured stdout)"""
+    use_impl()
+    import io
+    import contextlib
+    from lib_trainer.run_trainer import run_trainer
+    from lib_trainer.trainer_file_output import create_rule_folders
+    info = {
+        'name': 'PCFG Trainer', 'version': '4.7', 'author': 'x', 'contact': 'x',
+        'rule_name': os.path.basename(ruledir), 'training_file': training_file, 'encoding': encoding,
+        'comments': '', 'save_sensitive': save_sensitive, 'prefixcount': prefixcount, 'ngram': ngram,
+        'alphabet_size': alphabet_size,
+        'alphabet': 'abcdefghijklmnopqrstuvwxyzABCDEFGHIJKLMNOPQRSTUVWXYZ0123456789!.*@-_$#<?',
+        'smoothing': 0.01, 'coverage': coverage, 'max_len': max_len, 'multiword': multiword,
+    }
+    if os.path.exists(ruledir):
+        shutil.rmtree(ruledir)
+    buf = io.StringIO()
+    with contextlib.redirect_stdout(buf), contextlib.redirect_stderr(buf):
+        if not create_rule_folders(ruledir):
+            return False, buf.getvalue()
+        ok = run_trainer(info, ruledir)
+    return bool(ok), buf.getvalue()
